@@ -197,6 +197,9 @@ def apply_tags(kind, obj, rng, sizeclass):
             t["----:com.apple.iTunes:" + MARK] = [MP4FreeForm(blob(rng, "tiny"))]
         else:
             t["cpil"] = rng.random() < 0.5
+        if rng.random() < 0.3:
+            # integer atoms whose minimum width is one byte: data type 21 is a SIGNED big-endian integer
+            t[rng.choice(["stik", "rtng", "hdvd", "shwm", "akID"])] = [rng.choice([0, 1, 127, 128, 200, 255, 256, 32767, 32768, 65535, 2 ** 31 - 1])]
     elif st == "asf":
         from mutagen.asf import ASFUnicodeAttribute, ASFDWordAttribute, ASFQWordAttribute, ASFWordAttribute, ASFBoolAttribute, ASFByteArrayAttribute
         r = rng.random()
@@ -325,6 +328,8 @@ def expected_indep(kind, obj, v2_version=4):
                 out.append((kb, [struct.pack(">H", x) for x in vals]))
             elif k == "cpil":
                 out.append((kb, [bytes([1 if v else 0])]))
+            elif k in ("stik", "rtng", "hdvd", "shwm", "akID"):
+                out.append((kb, [("int", int(x)) for x in vals]))
         return sorted(out, key=repr)
     if st == "asf":
         out = []
@@ -385,6 +390,9 @@ def indep_decode(kind, w):
                 out.append((name, [(int.from_bytes(b[:4], "big") & 0xFFFFFF, b[8:]) for b in datas]))
             elif name in (b"trkn", b"tmpo", b"cpil"):
                 out.append((name, [b[8:] for b in datas]))
+            elif name in (b"stik", b"rtng", b"hdvd", b"shwm", b"akID"):
+                # type 21: signed big-endian integer of 1, 2, 3, 4 or 8 bytes
+                out.append((name, [("int", int.from_bytes(b[8:], "big", signed=True)) for b in datas]))
         return sorted(out, key=repr)
     if st == "asf":
         if t is None:
